@@ -39,6 +39,7 @@ func (s *muxerServer) handle(w http.ResponseWriter, r *http.Request) {
 	s.mutex.RLock()
 	handler, ok := s.pathHandlers[path]
 	s.mutex.RUnlock()
+	verifHook("server:looked-up")
 
 	if ok {
 		handler(w, r)
